@@ -182,6 +182,9 @@ def obligations(tier):
                 pre += " and e1 == (12 if e0 != 12 else 11) and e2 == (8 if e0 != 8 else 7)" + (f" and e0 % 3 == {spec % 3}" if tier == "quick" else "")
             obs.append(dict(name=f"lookup[{n} entries,spec{spec}]", func="lookup", pre=pre, timeout=T,
                             bounds="asset kind symbolic (6); entries by symbolic index from 13 representatives; the simfile names: absent/empty/other-case entry/missing/in sub-directory/in missing sub-directory/exact entry/missing in sub-directory; both formats; directory given as an absolute path or a bare relative name"))
+    for kind in range(6):
+        obs.append(dict(name=f"lookup_multi[kind{kind}]", func="lookup_multi", pre=f"kind == {kind}", timeout=T,
+                        bounds="1..2 entries by symbolic index from 5 names that match the patterns of two asset kinds at once (or none); the simfile names: absent/empty/other-case entry/missing; both formats"))
     obs.append(dict(name="empty_simfile", func="empty_simfile", timeout=T, bounds="explicitly supplied simfile without properties, 6 kinds, with/without a matching entry"))
     for n in range(3):
         obs.append(dict(name=f"pack_banner[{n} inside]", func="pack_banner", pre=f"n == {n}" + (" and i0 == 0 and i1 == 1" if n == 0 else " and i1 == (1 if i0 != 1 else 2)" if n == 1 else ""), timeout=T,
